@@ -5,13 +5,9 @@
   without padding arguments only for pad ' ' on the right.
 -/
 import FinProto.GenCodec
-import FinProto.Gen
 import FinProto.GoIRSpec
 namespace FinProto.Obl
 
 theorem ir_calls : GoIR.callsOK GoIR.prog Gen.calls = true := by decide +kernel
-
-/-- and every primitive op of every regenerated message type was read from such a call -/
-theorem ir_calls_cover : GoIR.callsCover Gen.types Gen.calls = true := by decide +kernel
 
 end FinProto.Obl
